@@ -32,6 +32,25 @@ func (fc *FnCtx) execCall(fr *Frame, st *State, reach string, call ssa.CallInstr
 		}
 		root = root.parent
 	}
+	// calls(F): count the calls of F made in the function's own body
+	if fr.parent == nil && fc.con != nil && strings.Contains(fc.con.AllText, "calls(") {
+		cname := ""
+		if com.IsInvoke() {
+			cname = com.Method.Name()
+		} else if sc := com.StaticCallee(); sc != nil {
+			cname = sc.Name()
+		}
+		if cname != "" && strings.Contains(fc.con.AllText, "calls("+cname+")") {
+			if st.calls == nil {
+				st.calls = map[string]string{}
+			}
+			cur, ok := st.calls[cname]
+			if !ok {
+				cur = "0"
+			}
+			st.calls[cname] = sx("+", cur, "1")
+		}
+	}
 	if inlinedOK && fc.con != nil && len(fc.con.AtCall) > 0 {
 		name := ""
 		if com.IsInvoke() {
